@@ -58,10 +58,10 @@ fn main() {
         "one" => {
             let prop = find(&args[2]);
             let sc: serde_json::Value = serde_json::from_slice(&std::fs::read(&args[3]).expect("read scenario")).expect("parse scenario");
-            let (v, th, cov) = engine::one_main(prop, &sc);
+            let (v, th, cov, rw) = engine::one_main(prop, &sc);
             let out = match v {
-                Some(v) => json!({"signature": v.signature, "detail": v.detail, "at_op": v.at_op, "trace_hash": th, "counters": cov.counters}),
-                None => json!({"signature": null, "detail": "", "at_op": -1, "trace_hash": th, "counters": cov.counters}),
+                Some(v) => json!({"signature": v.signature, "detail": v.detail, "at_op": v.at_op, "trace_hash": th, "counters": cov.counters, "rewrite": rw}),
+                None => json!({"signature": null, "detail": "", "at_op": -1, "trace_hash": th, "counters": cov.counters, "rewrite": rw}),
             };
             println!("RESULT {}", out);
         }
